@@ -314,3 +314,15 @@ package verifspec
 //@ property S01
 //@   requires o != nil
 //@   ensures result == 3
+
+//@ extern st.liar
+//@   ensures 0 == 1
+//@ func st.Bad_Vacuous
+//@ property S01
+//@   requires a < 1000 && a > -1000
+//@   ensures result == a
+//@ func st.Bad_VacuousLoop
+//@ property S01
+//@   requires n > 0 && n < 1000
+//@   loop 1 invariant 0 <= i && i <= n && s == 2 * i
+//@   ensures result == 2 * n
